@@ -33,7 +33,8 @@ def main(tier, seed, replay=None):
     for i in range(n):
         wide = i % 7 == 3
         c = gen_problem(rng, quant=(8 if i % 8 else None), family=(rng.choice(SCALABLE) if i % 6 == 5 else "exp1l" if wide else None),
-                        **({"N": 4, "S": rng.choice([6, 7]), "ctor": rng.choice(["mrhs", "mrhs_parallel"]), "weights": rng.choice(["pos", "mixed"])} if wide else {}))
+                        **({"N": 4, "S": (lambda s_: 4 if (i // 7) % 3 == 1 else s_)(rng.choice([6, 7])),      # every third: SQUARE (S = N)
+                            "ctor": rng.choice(["mrhs", "mrhs_parallel"]), "weights": rng.choice(["pos", "mixed"])} if wide else {}))
         c["ops"] = [["wdata"]] + states.observe_at(rng, c, nsets=2) + [["wdata"]]
         if i % 5 == 2 and c["meta"]["family"] in ("exp2c", "exp1l", "exp1", "exp3", "shared", "cosmix"):
             # an update to parameters at which the model overflows (values +-inf / NaN, no error): no residuals may be shown for
